@@ -44,7 +44,7 @@ class C12(C02):
             "line observed")
     assumptions = ["only settings under which plain git keeps working are drawn", "settings that change what git does "
                    "(autocrlf, notes.rewriteRef, rebase.*, merge.*) are outside the property's list"]
-    expected_probes = ["ai_lines_observed", "ctx.subdir", "ctx.dash_C", "knob.diff.external", "knob.color.ui"]
+    expected_probes = ["ai_lines_observed", "ctx.subdir", "ctx.dash_C", "ctx.symlink_C", "knob.diff.external", "knob.color.ui", "locale"]
 
     def make_exec(self, root, trace):
         ex = PairExec(root, trace)
@@ -71,6 +71,9 @@ class C12(C02):
             # fails: "patch does not apply"); only settings under which git keeps working are part of the claimed space
             env = {}
         h["variant"] = {"world": {"gitconfig": [list(k) for k in knobs]}, "context": ctx, "git_env": env, "subdir": "src"}
+        if rng.random() < 0.2:
+            # the user's locale: every message git prints (also to git-ai's internal calls) comes out translated
+            h["variant"]["env"] = {"LC_ALL": "", "LANG": "C.UTF-8", "LANGUAGE": rng.choice(["de", "fr", "ja"])}
         h["init"]["files"]["src/keep.txt"] = "L0 keep this directory\n"
         if h["cfg"]["hazards"].get("names"):
             # names that git prints quoted under every core.quotePath setting, with and without raw UTF-8 inside
@@ -90,6 +93,8 @@ class C12(C02):
             v = ex.variant
             if v.get("context"):
                 ex.probe("ctx." + v["context"])
+            if (v.get("env") or {}).get("LANGUAGE"):
+                ex.probe("locale")
             for k in v.get("world", {}).get("gitconfig", []):
                 ex.probe("knob.%s.%s" % (k[0].split(" ")[0], k[1]))
         if op["op"] != "git" or not (op.get("check") or op.get("rewrite")):
